@@ -813,7 +813,12 @@ pub fn expand_env(sh: &Shell, tokens: &mut types::Tokens) {
 
         let mut _token = token.clone();
         while env_in_token(&_token) {
-            _token = expand_one_env(sh, &_token);
+            let expanded = expand_one_env(sh, &_token);
+            if expanded == _token {
+                // nothing expand_one_env can rewrite, e.g. an unterminated `${FOO`
+                break;
+            }
+            _token = expanded;
         }
         buff.push((idx, _token));
         idx += 1;
